@@ -25,6 +25,7 @@ EXT_CLASSES = {
 BUILTIN_DECLARED = {
     'UserCallable': {'__name__'},
     'BaseException': {'args'},
+    'iterator': {'$src', '$pos'},
 }
 
 
